@@ -95,10 +95,25 @@ FOCUS2 = [
     "the returned values: counts returned by Read/Write/striped forms/conversions, Length/Capacity/Len/Cap after each mutating call, for shapes where rounding up or down matters",
 ]
 
+FOCUS3 = [
+    "the order of checks and effects inside ONE call: a guard evaluated after a partial effect, a result returned from before a clamp, a length read before it is updated",
+    "buffers whose length is much smaller than their capacity, or exactly one frame short of it; spare capacity that holds stale samples from an earlier use",
+    "a conversion between two element types of DIFFERENT width where one is a named type; the bit depth each side reports and the scale chosen from the two",
+    "windows of windows of windows: offsets accumulated across three or more Slice calls, then a Channel view, Append or conversion through the innermost",
+    "Read/ReadStriped/Write/WriteStriped between DIFFERENT element types (float to int, int to float, signed to unsigned, wide to narrow): the value conversion they apply per sample",
+    "the second and later uses of one PoolAllocator after a garbage collection emptied its sync.Pool, or after Put of a buffer that was grown and sliced back",
+    "conversions whose source is longer than the destination or shorter by less than one frame; which samples of the destination's last partial frame are written",
+    "Scale, MaxSignedValue, MinSignedValue, MaxUnsignedValue for depths 0 and 64 and beyond what the type holds, and the callers in the conversions that rely on them",
+    "Frequency.Events for durations that are exact multiples of the period versus one nanosecond off; Frequency.Duration for event counts whose product with 1e9 exceeds int64 or 2^53",
+    "Alloc with Length > Capacity, zero Length with Capacity, huge Channels with tiny Capacity: the shape, zeroing and independence of what comes back",
+    "AppendSample interleaved with Append and Slice on the same header: cached lengths, the partial frame it leaves, and what Channel views report meanwhile",
+    "what a panic message or a recovered panic leaves behind in a PoolAllocator or a destination buffer that is then used again normally",
+]
+
 def main():
     ap = argparse.ArgumentParser()
     ap.add_argument("--free", action="store_true")
-    ap.add_argument("--hints", type=int, default=1, help="which list of focus hints the --free form uses (1 or 2)")
+    ap.add_argument("--hints", type=int, default=1, help="which list of focus hints the --free form uses (1, 2 or 3)")
     ap.add_argument("--dir", default="/tmp/wt")
     a = ap.parse_args()
     os.makedirs(a.dir, exist_ok=True)
@@ -132,7 +147,7 @@ def main():
             with open(os.path.join(a.dir, pid + ".prompt.txt"), "w") as f:
                 f.write(HEAD.format(dir=a.dir, wt=pid) + TASK_ONE.format(dir=a.dir, wt=pid, extra=extra) + TAIL.format(dir=a.dir, wt=pid))
     if a.free:
-        for i, focus in enumerate(FOCUS if a.hints == 1 else FOCUS2):
+        for i, focus in enumerate({1: FOCUS, 2: FOCUS2, 3: FOCUS3}[a.hints]):
             wt = "F%02d" % (i + 1)
             with open(os.path.join(a.dir, wt + ".prompt.txt"), "w") as f:
                 f.write(HEAD.format(dir=a.dir, wt=wt) + TASK_FREE.format(dir=a.dir, focus=focus) + TAIL.format(dir=a.dir, wt=wt))
